@@ -71,8 +71,12 @@ def cases(tier, seed):
     return cs
 
 
-def make_atoms(structure, spec):
-    return [structure.atom_entry(label="a%d" % i, atomtype=a["el"], pos=list(a["pos"]), adp_type=a["adp_type"],
+POSKIND = [list, lambda p_: np.array(p_, float), tuple]
+
+
+def make_atoms(structure, spec, kind=0):
+    # positions as list (what CIFread stores), float64 ndarray (what PDBread stores) or tuple
+    return [structure.atom_entry(label="a%d" % i, atomtype=a["el"], pos=POSKIND[(kind + i) % 3](a["pos"]), adp_type=a["adp_type"],
                                  adp=(list(a["adp"]) if a["adp_type"] == "Uani" else a["adp"]), occ=a["occ"], symmulti=a["mult"]) for i, a in enumerate(spec)]
 
 
@@ -90,9 +94,13 @@ def check_case(case):
     ff = atomlib.formfactor
 
     def compare(spec, disp, label, hk=H):
-        atoms = make_atoms(structure, spec)
+        atoms = make_atoms(structure, spec, kind=case["no"] + len(label))
         scale = sum(a["occ"] * O.Z[a["el"]] * a["mult"] for a in spec)
-        for h in hk:
+        for hi_, h in enumerate(hk):
+            if hi_ in (1, len(hk) - 1):
+                for at, a in zip(atoms, spec):
+                    r.require([float(x) for x in at.pos] == [float(x) for x in a["pos"]], "%s:%s:atom-pos-unchanged" % (tag, label),
+                              "StructureFactor leaves the atoms' coordinates as they were", list(a["pos"]), [float(x) for x in at.pos])
             got = complex(*structure.StructureFactor(h, cell, name, atoms, disp))
             ref = O.p1_structure_factor(h, cell, g.rot, g.trans, ops, spec, disp, ff)
             dev = max(abs(got.real - ref.real), abs(got.imag - ref.imag)) / scale
